@@ -44,6 +44,11 @@ LScenario(s, crlf) ==
   LET t == IF crlf THEN Seeds[s] \o "\r\n" ELSE Seeds[s] \o "\n"
       ref == [op |-> "execfrag", ctx |-> 0, reader |-> "string", text |-> t]
       pads == [k \in 1..46 |-> [op |-> "execfrag", ctx |-> k, reader |-> "string", text |-> t, padline |-> 984 + k, same_run_as |-> 1]]
+      \* later boundaries of the same line: multiples of the scanner's buffer (1023) and of a page (4096) -- a reader or a
+      \* gathering loop that gives up after some amount of text splits a lexeme there
+      far == LET Bs == <<2046, 3069, 4092, 4096, 8184, 8192>>
+             IN [k \in 1..(46 * Len(Bs)) |-> [op |-> "execfrag", ctx |-> 200 + k, reader |-> "string", text |-> t,
+                                              padline |-> Bs[1 + ((k - 1) \div 46)] - 39 + (1 + ((k - 1) % 46)), same_run_as |-> 1]]
       frag == [j \in 1..5 |-> [op |-> "execfrag", ctx |-> 46 + j, text |-> t, frags |-> <<<<1, 2, 7, 64, 1000>>[j]>>, same_run_as |-> 1]]
       \* the bloc command reads a script file and its standard input through readers of its own
       cli == IF crlf \/ s = 1
@@ -51,7 +56,7 @@ LScenario(s, crlf) ==
              ELSE <<>>
       \* the INCLUDE statement reads the file with a reader of its own
       incl == [k \in 1..46 |-> [op |-> "execfrag", ctx |-> 100 + k, reader |-> "include", text |-> t, padline |-> 984 + k, same_run_as |-> 1, nounp |-> TRUE]]
-  IN [prop |-> "C13", key |-> "L", steps |-> <<ref>> \o pads \o frag \o cli \o incl]
+  IN [prop |-> "C13", key |-> "L", steps |-> <<ref>> \o pads \o frag \o cli \o incl \o far]
 \* CR LF against LF: same tokens
 CScenario(s) ==
   [prop |-> "C13", key |-> "C",
